@@ -32,10 +32,11 @@ PROP_FILE = LEAN / 'BearVerif/Props/C08.lean'
 WORKERS = max(2, min(15, (os.cpu_count() or 4) - 1))
 
 E = ['U', 0, 7]                       # ValueError(7)
+EB = ['U', 3, 7]                      # UserBase(7): a BaseException that is no Exception
 OPS = {
-    'gen': [['send', 'none'], ['send', 0], ['throw', E], ['throw', 'GE'], ['throw', ['SI', 3]], 'close'],
-    'coro': [['send', 'none'], ['send', 0], ['throw', E], ['throw', 'GE'], ['throw', ['SI', 3]], 'close'],
-    'agen': [['send', 'none'], ['send', 0], ['throw', E], ['throw', 'GE'], ['throw', 'SAI'], ['throw', ['SI', 3]], 'close'],
+    'gen': [['send', 'none'], ['send', 0], ['throw', E], ['throw', EB], ['throw', 'GE'], ['throw', ['SI', 3]], 'close'],
+    'coro': [['send', 'none'], ['send', 0], ['throw', E], ['throw', EB], ['throw', 'GE'], ['throw', ['SI', 3]], 'close'],
+    'agen': [['send', 'none'], ['send', 0], ['throw', E], ['throw', EB], ['throw', 'GE'], ['throw', 'SAI'], ['throw', ['SI', 3]], 'close'],
 }
 PRIMARY = {'gen': 'ok', 'coro': 'int', 'agen': 'ok'}
 SPEC_NOTE = {'plain': '', 'chk': ' (specification: its returned value goes through the return check)',
